@@ -121,6 +121,13 @@ Lemma f2q_f64_one : f2q f64_one = w1.
 Proof. apply Qc_is_canon. vm_compute. reflexivity. Qed.
 Lemma finite_not_nan v : f_is_finite v = true -> f_is_nan v = false.
 Proof. destruct v; intros H; try discriminate H; reflexivity. Qed.
+(* the test of GetValueAtQuantile on its argument only lets finite floats through *)
+Lemma unit_interval_finite q : fle f64_zero q = true -> fle q f64_one = true -> f_is_finite q = true.
+Proof.
+  intros Q0 Q1. destruct q as [sq|sq|sq pl Hpl|sq mq eq Hq]; try reflexivity; exfalso.
+  - destruct sq; [vm_compute in Q0|vm_compute in Q1]; discriminate.
+  - vm_compute in Q0. discriminate.
+Qed.
 
 (* ================================================================== *)
 (** * 2. Count, IsEmpty                                                *)
@@ -316,10 +323,7 @@ Proof.
   intros Rm R0 Ri F4 F5 Hs Q0 Q1 Hc C0 C1.
   destruct (plain_quantile_refines fx mt s q F4 F5 Hs Q0 Q1 Hc) as (s' & y & E & I' & K & A & M).
   exists s', y. split; [exact E|]. split; [exact I'|]. split; [exact K|]. split; [exact A|].
-  assert (Fq : f_is_finite q = true).
-  { destruct q; try reflexivity; unfold fle, fcmp, b64_compare, Binary.Bcompare in Q0, Q1; rewrite f64_zero_eq in Q0.
-    - destruct s0; cbn in Q0, Q1; discriminate.
-    - cbn in Q0. discriminate. }
+  pose proof (unit_interval_finite q Q0 Q1) as Fq.
   rewrite (plain_count_refines s Hs) in Hc, C0, C1.
   destruct (a_quantile_some rnd (am_of mt) Rm R0 Ri (sk_abs s) (f2q q) (SkInv_awf s Hs) Hc) as (y' & Ey); try assumption.
   - rewrite <- f2q_f64_zero. apply (fle_iff _ _ f64_zero_finite Fq). exact Q0.
@@ -634,10 +638,7 @@ Proof.
   { intros it Hin. apply in_map_iff in Hin. destruct Hin as (v & <- & Hv). cbn [unit_item fst]. now apply Hrange. }
   destruct (plain_add_units_refines mt vs s0 a Hm I0 L0p L0n Hf Ea) as (s & Es & Is & Ks & As).
   exists s. split; [exact Es|]. split; [exact Is|].
-  assert (Fq : f_is_finite q = true).
-  { destruct q; try reflexivity; unfold fle, fcmp, b64_compare, Binary.Bcompare in Q0, Q1; rewrite f64_zero_eq in Q0.
-    - destruct s1; cbn in Q0, Q1; discriminate.
-    - cbn in Q0. discriminate. }
+  pose proof (unit_interval_finite q Q0 Q1) as Fq.
   assert (Hq0 : (w0 <= f2q q)%Qc).
   { rewrite <- f2q_f64_zero. apply (fle_iff _ _ f64_zero_finite Fq). exact Q0. }
   assert (Hq1 : (f2q q <= w1)%Qc).
@@ -653,3 +654,33 @@ Proof.
   destruct (plain_quantile_refines rnd fx mt s q F4 F5 Is Q0 Q1 Hc) as (s' & y & E & I' & _ & A' & M).
   rewrite K3 in M. subst y. exists k, s'. auto.
 Qed.
+
+(* ================================================================== *)
+(** * 11. DDSketchWithExactSummaryStatistics.Add / AddWithCount        *)
+(* ================================================================== *)
+(* the statistics are bookkeeping on the side: with the repaired weight-0 shortcut (D7) the bins
+   evolve exactly as in the plain sketch *)
+Theorem sk_add_refines fx mt s v c unit :
+  fD7 fx = true -> mt_ok mt -> SkInv s -> f_is_finite v = true -> f_is_finite c = true -> (w0 <= f2q c)%Qc ->
+  match a_add (am_of mt) (sk_lp s) (sk_ln s) (sk_abs s) (f2q v) (f2q c) with
+  | AAdded a' => exists s', sk_add fx mt s v c unit = ROk s' /\ SkInv s' /\ sk_same s s' /\ sk_abs s' = a'
+  | ATooHigh => sk_add fx mt s v c unit = RErr ETooHigh
+  | ATooLow => sk_add fx mt s v c unit = RErr ETooLow
+  end.
+Proof.
+  intros F7 Hm Hs Fv Fc Hc. pose proof (plain_add_refines mt s v c Hm Hs Fv Fc Hc) as H.
+  unfold sk_add. rewrite F7. destruct (sk_stats s) as [t|].
+  - rewrite andb_false_r. cbn [negb andb].
+    destruct (a_add (am_of mt) (sk_lp s) (sk_ln s) (sk_abs s) (f2q v) (f2q c)) as [a'| | ].
+    + destruct H as (s' & E & I' & K & A & _). rewrite E.
+      destruct (negb unit && feq c f64_zero); eexists; (split; [reflexivity|]); auto.
+    + rewrite H. reflexivity.
+    + rewrite H. reflexivity.
+  - destruct (a_add (am_of mt) (sk_lp s) (sk_ln s) (sk_abs s) (f2q v) (f2q c)) as [a'| | ]; [|exact H|exact H].
+    destruct H as (s' & E & I' & K & A & _). exists s'. auto.
+Qed.
+
+(* ---- summary used by Props/Refine.v ---- *)
+Theorem sk_new_spec m kp kn exact :
+  kind_ok kp -> kind_ok kn -> SkInv (sk_new m kp kn exact) /\ sk_abs (sk_new m kp kn exact) = a_new.
+Proof. intros Hp Hn. split; [now apply SkInv_new|apply sk_abs_new]. Qed.
